@@ -1382,4 +1382,239 @@ theorem mu_init (lists : List (List Int)) : mu (init true lists) = 4 * lenLL lis
 
 end Mutex
 
+/-! ## n goroutines in the same select statement -/
+namespace SelN
+
+def sumG (f : G → Nat) (l : List G) : Nat := l.foldr (fun w acc => f w + acc) 0
+
+theorem sumG_set {f : G → Nat} {l : List G} {i : Nat} {w w' : G} (h : l[i]? = some w) :
+    sumG f (l.set i w') + f w = sumG f l + f w' := by
+  induction l generalizing i with
+  | nil => simp at h
+  | cons x xs ih =>
+    cases i with
+    | zero => simp at h; subst h; simp only [List.set_cons_zero, sumG, List.foldr_cons]; omega
+    | succ j =>
+      simp at h
+      have := ih h
+      simp only [List.set_cons_succ, sumG, List.foldr_cons] at *; omega
+
+/-- per-goroutine invariant w.r.t. its specification (own list l, r rounds, index i) -/
+structure GInv (r : Nat) (l : List Int) (i : Nat) (g : G) : Prop where
+  hist : g.got ++ g.ch = l
+  cnt : g.rounds + g.got.length = r
+  enough : g.rounds ≤ g.ch.length
+  own : g.ev = none ∨ g.ev = some i
+  active : g.ev ≠ none → 0 < g.rounds
+
+structure Inv (r : Nat) (lists : List (List Int)) (s : St) : Prop where
+  ns : s.shared = false
+  len : s.gs.length = lists.length
+  each : ∀ (i : Nat) (g : G), s.gs[i]? = some g → ∃ l, lists[i]? = some l ∧ GInv r l i g
+
+theorem inv_init (r : Nat) (lists : List (List Int)) (hr : ∀ l ∈ lists, r ≤ l.length) :
+    Inv r lists (init false r lists) := by
+  refine ⟨rfl, by simp [init], ?_⟩
+  intro i g hg
+  simp only [init, List.getElem?_map] at hg
+  cases hl : lists[i]? with
+  | none => simp [hl] at hg
+  | some l =>
+    simp [hl] at hg; subst hg
+    exact ⟨l, rfl, ⟨by simp, by simp, hr l (List.mem_of_getElem? hl), Or.inl rfl, by simp⟩⟩
+
+theorem mem_en {s : St} {a : Act} (h : a ∈ sys.en s) : enB s a = true := by
+  simp only [sys, List.mem_filter] at h; exact h.2
+
+theorem step_sel {s : St} {i : Nat} {g : G} {v : Int} {rest : List Int} (hs : s.shared = false)
+    (hg : s.gs[i]? = some g) (hev : g.ev = some i) (hch : g.ch = v :: rest) :
+    step s (.sel i) = { s with gs := s.gs.set i { ch := rest, rounds := g.rounds - 1, ev := none, got := g.got ++ [v] } } := by
+  have hlt : i < s.gs.length := (List.getElem?_eq_some_iff.mp hg).1
+  simp [step, hg, hev, chanOf, hs, hch, List.getElem?_set_self hlt, List.set_set]
+
+theorem each_set {r : Nat} {lists : List (List Int)} {gs : List G} {i : Nat} {g' : G}
+    (h : ∀ (j : Nat) (g : G), gs[j]? = some g → ∃ l, lists[j]? = some l ∧ GInv r l j g)
+    (hi : ∀ l, lists[i]? = some l → GInv r l i g') :
+    ∀ (j : Nat) (g : G), (gs.set i g')[j]? = some g → ∃ l, lists[j]? = some l ∧ GInv r l j g := by
+  intro j g hj
+  by_cases hji : j = i
+  · subst hji
+    by_cases hl : j < gs.length
+    · rw [List.getElem?_set_self hl] at hj
+      cases hj
+      obtain ⟨l, hl', _⟩ := h j gs[j] (List.getElem?_eq_getElem hl)
+      exact ⟨l, hl', hi l hl'⟩
+    · rw [List.getElem?_eq_none (by simp; omega)] at hj; cases hj
+  · rw [List.getElem?_set_ne (Ne.symm hji)] at hj
+    exact h j g hj
+
+theorem inv_step {r : Nat} {lists : List (List Int)} {s : St} {a : Act} (hi : Inv r lists s) (ha : a ∈ sys.en s) :
+    Inv r lists (sys.step s a) := by
+  have he := mem_en ha
+  obtain ⟨h0, h1, h2⟩ := hi
+  cases a with
+  | eval i =>
+    simp only [enB] at he
+    cases hg : s.gs[i]? with
+    | none => simp [hg] at he
+    | some g =>
+      simp only [hg, Bool.and_eq_true, decide_eq_true_eq] at he
+      obtain ⟨hpos, hev⟩ := he
+      simp only [sys, step, hg]
+      refine ⟨h0, by simp [h1], ?_⟩
+      apply each_set h2
+      intro l hl
+      obtain ⟨l', hl', gi⟩ := h2 i g hg
+      rw [hl] at hl'; cases hl'
+      exact ⟨gi.hist, gi.cnt, gi.enough, Or.inr rfl, fun _ => hpos⟩
+  | sel i =>
+    simp only [enB] at he
+    cases hg : s.gs[i]? with
+    | none => simp [hg] at he
+    | some g =>
+      obtain ⟨l, hl, gi⟩ := h2 i g hg
+      cases hev : g.ev with
+      | none => simp [hg, hev] at he
+      | some c =>
+        have hc : c = i := by
+          rcases gi.own with h | h
+          · rw [hev] at h; cases h
+          · rw [hev] at h; exact Option.some.inj h
+        subst hc
+        cases hch : g.ch with
+        | nil => simp [hg, hev, chanOf, h0, hch] at he
+        | cons v rest =>
+          show Inv r lists (step s (.sel c))
+          rw [step_sel h0 hg hev hch]
+          refine ⟨h0, by simp [h1], ?_⟩
+          apply each_set h2
+          intro l2 hl2
+          rw [hl] at hl2; cases hl2
+          have hpos := gi.active (by rw [hev]; simp)
+          have e1 := gi.hist; have e2 := gi.cnt; have e3 := gi.enough
+          rw [hch] at e1 e3
+          refine ⟨by simp [← e1], ?_, ?_, Or.inl rfl, by simp⟩
+          · simp only [List.length_append, List.length_singleton]; omega
+          · simp only [List.length_cons] at e3; simp only; omega
+
+theorem fin_result {r : Nat} {lists : List (List Int)} {s : St} (hi : Inv r lists s) (hf : finished s = true) :
+    s.gs.map (·.got) = lists.map (List.take r) := by
+  obtain ⟨h0, h1, h2⟩ := hi
+  apply List.ext_getElem?
+  intro i
+  simp only [List.getElem?_map]
+  cases hg : s.gs[i]? with
+  | none =>
+    have : lists[i]? = none := by
+      rw [List.getElem?_eq_none_iff] at hg ⊢; omega
+    simp [this]
+  | some g =>
+    obtain ⟨l, hl, gi⟩ := h2 i g hg
+    have hz : g.rounds = 0 := by
+      simp only [finished, List.all_eq_true] at hf
+      have := hf g (List.mem_of_getElem? hg)
+      simpa using this
+    simp only [hl, Option.map_some]
+    congr 1
+    have e1 := gi.hist; have e2 := gi.cnt
+    rw [hz] at e2
+    rw [← e1, ← e2]; simp
+
+theorem mem_acts {s : St} {i : Nat} (h : i < s.gs.length) : Act.eval i ∈ acts s ∧ Act.sel i ∈ acts s := by
+  simp only [acts, List.mem_flatMap, List.mem_range]
+  exact ⟨⟨i, h, by simp⟩, ⟨i, h, by simp⟩⟩
+
+theorem stuck_fin {r : Nat} {lists : List (List Int)} {s : St} (hi : Inv r lists s) (he : sys.en s = []) :
+    finished s = true := by
+  have hall : ∀ a ∈ acts s, enB s a = false := by
+    intro a ha
+    cases hb : enB s a with
+    | false => rfl
+    | true =>
+      have : a ∈ sys.en s := by simp only [sys, List.mem_filter]; exact ⟨ha, hb⟩
+      rw [he] at this; cases this
+  obtain ⟨h0, h1, h2⟩ := hi
+  simp only [finished, List.all_eq_true]
+  intro g hg
+  obtain ⟨i, hlt, rfl⟩ := List.getElem_of_mem hg
+  have hgi : s.gs[i]? = some s.gs[i] := List.getElem?_eq_getElem hlt
+  obtain ⟨l, hl, gi⟩ := h2 i _ hgi
+  obtain ⟨hev, hsel⟩ := mem_acts hlt
+  have e1 := hall _ hev
+  have e2 := hall _ hsel
+  generalize s.gs[i] = g at *
+  cases hr : g.rounds with
+  | zero => simp
+  | succ n =>
+    exfalso
+    cases hevv : g.ev with
+    | none => simp [enB, hgi, hr, hevv] at e1
+    | some c =>
+      have hc : c = i := by
+        rcases gi.own with h | h
+        · rw [hevv] at h; cases h
+        · rw [hevv] at h; exact Option.some.inj h
+      subst hc
+      have hne : g.ch ≠ [] := by
+        intro hnil
+        have := gi.enough
+        rw [hnil, hr] at this; simp at this
+      simp [enB, hgi, hevv, chanOf, h0] at e2
+      exact hne e2
+
+def wt (g : G) : Nat := 2 * g.rounds - (if g.ev.isSome then 1 else 0)
+def mu (s : St) : Nat := sumG wt s.gs
+
+theorem mu_dec {r : Nat} {lists : List (List Int)} {s : St} {a : Act} (hi : Inv r lists s) (ha : a ∈ sys.en s) :
+    mu (sys.step s a) < mu s := by
+  have he := mem_en ha
+  obtain ⟨h0, h1, h2⟩ := hi
+  cases a with
+  | eval i =>
+    simp only [enB] at he
+    cases hg : s.gs[i]? with
+    | none => simp [hg] at he
+    | some g =>
+      simp only [hg, Bool.and_eq_true, decide_eq_true_eq] at he
+      obtain ⟨hpos, hev⟩ := he
+      have hevn : g.ev = none := by simpa using hev
+      simp only [sys, step, hg, mu]
+      have := sumG_set (f := wt) (w' := { g with ev := some i }) hg
+      simp only [wt, hevn] at this
+      simp at this; omega
+  | sel i =>
+    simp only [enB] at he
+    cases hg : s.gs[i]? with
+    | none => simp [hg] at he
+    | some g =>
+      obtain ⟨l, hl, gi⟩ := h2 i g hg
+      cases hev : g.ev with
+      | none => simp [hg, hev] at he
+      | some c =>
+        have hc : c = i := by
+          rcases gi.own with h | h
+          · rw [hev] at h; cases h
+          · rw [hev] at h; exact Option.some.inj h
+        subst hc
+        cases hch : g.ch with
+        | nil => simp [hg, hev, chanOf, h0, hch] at he
+        | cons v rest =>
+          show mu (step s (.sel c)) < mu s
+          rw [step_sel h0 hg hev hch]
+          have hpos := gi.active (by rw [hev]; simp)
+          have := sumG_set (f := wt) (w' := { ch := rest, rounds := g.rounds - 1, ev := none, got := g.got ++ [v] }) hg
+          simp only [wt, hev] at this
+          simp only [mu]
+          simp at this; omega
+
+theorem mu_init (r : Nat) (lists : List (List Int)) : mu (init false r lists) = 2 * r * lists.length := by
+  simp only [mu, init]
+  induction lists with
+  | nil => simp [sumG]
+  | cons x xs ih =>
+    simp only [List.map_cons, sumG, List.foldr_cons, wt, List.length_cons] at *
+    rw [ih]; simp [Nat.mul_add]; omega
+
+end SelN
+
 end Chan
